@@ -496,6 +496,12 @@ W_CALLS = ([('glob', p, fl) for p in ('~/*.txt', '~', '~/sub/*', '~/**', '*.txt'
                                             ('dang', '*'), ('home1', '*/'), ('d/up/top.txt', '**/top.txt'), ('d/a.txt', '*.txt'), ('lnk/a.txt', '*.txt'))
             for fl in (('G', 'P'), ('G', 'P', 'L'), ('P', 'X'), ('G', 'P', 'O'))] +
            [('gmt', nm, p, fl) for nm, p in (('a.txt', '~/*.txt'), ('b.txt', '~/*.txt')) for fl in (('T', 'P'), ('T',))] +
+           # the same pattern text once as an exclusion and once as an inclusion under the same flags (a regex built for one role
+           # must never be handed out for the other)
+           [('gmx', 'lnk/a.txt', '*/*', '**/a.txt', ('G', 'P', 'D')), ('gm', 'lnk/a.txt', '**/a.txt', ('G', 'P', 'D')),
+            ('gmx', 'd/a.txt', '**', '**/a.txt', ('G', 'P', 'D')), ('gm', 'd/a.txt', '**/a.txt', ('G', 'P', 'D')),
+            ('gmx', 'lnk/a.txt', '**/a.txt', 'zz*', ('G', 'P', 'D')), ('gmx', 'top.txt', '*', '*.txt', ('P', 'D')), ('gm', 'top.txt', '*.txt', ('P', 'D')),
+            ('gmx', 'lnk/e/c.txt', '*/*/*', '**', ('G', 'P', 'D', 'L')), ('gm', 'lnk/e/c.txt', '**', ('G', 'P', 'D', 'L'))] +
            [('wc', fp, fl) for fp in ('*.txt', '*.txt|!a*', '*') for fl in (('RV',), ('RV', 'HD'), ('RV', 'SL'), ())] +
            [('pl', p, fl) for p in ('**/*.txt', '*/a.txt', '~/*.txt') for fl in (('G',), ('G', 'L'), ('G', 'T'))])
 
@@ -522,6 +528,8 @@ def world_call(d, root):
             return G.globmatch(d[1], d[2], flags=gflags(d[3]), root_dir=root)
         if kind == 'gmt':
             return G.globmatch(os.path.join(os.environ.get('HOME', '/nonexistent'), d[1]), d[2], flags=gflags(d[3]))
+        if kind == 'gmx':
+            return G.globmatch(d[1], d[2], flags=gflags(d[4]), exclude=d[3], root_dir=root)
         if kind == 'wc':
             fl = 0
             for n in d[2]:
